@@ -266,7 +266,7 @@ def World.updateDeps (w : World) (o : Nat) (attr : String) : List MethodDef → 
 
 def insertByPrec (wt : Watcher) : List Watcher → List Watcher
   | [] => [wt]
-  | x :: r => if wt.precedence < x.precedence then wt :: x :: r else x :: insertByPrec wt r
+  | x :: r => if wt.precedence ≤ x.precedence then wt :: x :: r else x :: insertByPrec wt r
 
 /-- `sorted(watchers, key=precedence)` (stable) -/
 def sortByPrec (l : List Watcher) : List Watcher := l.foldr insertByPrec []
@@ -345,7 +345,7 @@ def doNew (w : World) (cls : Nat) (kwargs : List (String × Arg)) : Except Err W
       let (vals, w) := initValues w c.params []
       let (vals, w) := evalKwargs w kwargs vals
       let o := w.objs.length
-      let w := { w with objs := w.objs ++ [{ cls := cls, values := vals, pcopies := [], attrs := [], watchers := [], dyn := [] }] }
+      let w : World := { w with objs := w.objs ++ [({ cls := cls, values := vals, pcopies := [], attrs := [], watchers := [], dyn := [] } : Obj)] }
       .ok (w.initDeps o c.methods)
     else .error .unsupported
 
